@@ -74,7 +74,7 @@ APIS = {
     # a RegExp reused on a shorter subject: lastIndex points beyond the end (or is negative / fractional)
     "lastindex_beyond_test": "(function(){ var r = %(RY)s; r.lastIndex = S.length + 3; return [r.test('ab'), r.test(''), r.lastIndex]; })()",
     "lastindex_beyond_exec": "(function(){ var r = %(RY)s; r.lastIndex = S.length + 7; var m = r.exec('x\\ny'); return [m === null, r.lastIndex]; })()",
-    "lastindex_sweep": "(function(){ var r = %(RY)s, k = 0; for (var q = 0; q <= 2 * S.length + 3; q++) { r.lastIndex = q; r.test(S); r.lastIndex = q; r.exec(S); k++; } return k > 0; })()",
+    "lastindex_sweep": "(function(){ var r = %(RY)s, k = 0; for (var q = 0; q <= Math.min(2 * S.length + 3, 60); q++) { r.lastIndex = q; r.test(S); r.lastIndex = q; r.exec(S); k++; } return k > 0; })()",
     "exec_then_test": "(function(){ var r = %(RY)s, k = 0; while (k++ < 12) { r.exec(S); r.test(S); } return k; })()",
     "lastindex_odd_values": "(function(){ var r = %(RY)s, out = []; var vs = [-1, 2.5, 1e9, S.length, S.length + 1]; for (var q = 0; q < vs.length; q++) { r.lastIndex = vs[q]; out.push(r.test(S)); } return out.length; })()",
     "split_limit_g": "S.split(%(RG)s, 1)",
